@@ -36,8 +36,11 @@ CHECKS = {
              "resolve to a declared target); TraceExpr compares the real tokens inside the value with it as sets of (type, exact extent) for every case of MC_Expr.",
         ref="DESIGN.md 5/C13", technique="TLC trace validation (Session.tla) + TLC model checking of ExprRules.tla with replay of TLC-generated cases + TraceExpr (TokenViol)"),
     "C14": dict(
-        text="Trace validation of the symbol tree of every buffer state: children inside parents, siblings in source order.",
-        ref="DESIGN.md 5/C14", technique="TLC trace validation (Session.tla predicates on symbol trees)"),
+        text="(1) Trace validation of the symbol tree of every buffer state of the typing histories: children inside parents, siblings in source order. (2) Outline.tla defines "
+             "Symbols(doc) (one per item in source order, names, list elements, literally keyed object items) and WorkspaceQ(query, paths); MC_Outline enumerates documents and "
+             "workspaces (3 paths x every subset of unreadable paths x queries incl. ones that span type and quoted labels), checks OnePerItem / Isolation on the model and prints "
+             "the cases; TraceOutline compares the real SymbolsInFile trees (names, exact extents, order, nesting) and Decoder.Symbols answers with them.",
+        ref="DESIGN.md 5/C14", technique="TLC trace validation (Session.tla) + TLC model checking of Outline.tla (MC_Outline, fault enumeration over unreadable paths) + replay + TraceOutline"),
     "C03": dict(
         text="Trace validation of the memo rule Session!Det: every query key (kind, file, offset) of four worlds is run repeatedly on one decoder in shuffled "
              "order, on fresh decoders and on freshly built contexts (Go re-randomises map iteration each time); TLC rejects two different order-sensitive digests for "
